@@ -219,6 +219,9 @@ def r3_no_transformer_downstream(w):
                     continue
                 n += 1
                 m = p.rsplit('::', 1)[-1]
+                m = re.sub(r'::<.*$', '', m)
+                if m in ('trim_end_matches', 'trim_right', 'trim_right_matches'):
+                    m = 'trim_end'          # the same transformation under another spelling
                 # keyed by role, not by name or by the closure the call happens to sit in: the same defect under any spelling of the post-processor
                 who = 'post-processor' if owner.id == cb.id else owner.short
                 r.bad({'fn': fb.short, 'callee': p}, '%s|%s' % (who, m),
